@@ -85,6 +85,11 @@ func (e *Engine) externWrites(f *ssa.Function) *WriteSet {
 	case p == "bytes" && f.Signature.Recv() != nil && strings.Contains(f.Signature.Recv().Type().String(), "Reader"):
 		e.ghostKeys()
 		w.Heap[gBrPos] = true
+		if f.Name() == "Read" || f.Name() == "ReadAt" {
+			// fills the caller's buffer (models_addons.go)
+			key, _ := e.memKey(types.Typ[types.Uint8])
+			w.Heap[key] = true
+		}
 		return w
 	case p == "bytes" && f.Name() == "NewReader":
 		return w
@@ -282,6 +287,13 @@ func (e *Engine) callFunction(s *State, fr *Frame, dst *ssa.Call, f *ssa.Functio
 		return nil, false
 	}
 	if v, handled := e.modelList(s, fr, dst, key, f, args, site); handled {
+		setResult(v)
+		return nil, false
+	}
+	if v, succ, handled, done := e.modelAddons(s, fr, dst, key, f, args, site); handled {
+		if done {
+			return succ, true
+		}
 		setResult(v)
 		return nil, false
 	}
@@ -806,6 +818,19 @@ func (e *Engine) applyAts(s *State, fr *Frame, anchor, when string, cc *ssa.Call
 				break
 			}
 			s.dead = true
+		case "cut", "start":
+			e.applyCut(s, fr, at, anchor, site, vars, vtypes)
+			if s.dead {
+				return
+			}
+			if at.When == "after" {
+				// the call's result was replaced by an arbitrary value: later "after" clauses see that one
+				if c, ok := site.(*ssa.Call); ok {
+					if nv, ok := fr.regs[c]; ok {
+						rv = nv
+					}
+				}
+			}
 		case "set":
 			env := e.mkEnv(s, fr, vars, vtypes)
 			tv, err := e.eval(env, at.Clause.Expr)
